@@ -202,10 +202,13 @@ def evaluate_verdict(spec):
     cm, sm = bytes.fromhex(ep["cmac"]), bytes.fromhex(ep["smac"])
     target = TARGETS[spec["target"] % len(TARGETS)]
     bad = spec["bad"]
+    wire = spec.get("wire")
+    if wire:
+        target = "none"         # the steering arithmetic assumes plain headers; decorated frames are checked unsteered
     if spec["proto"] == "tcp":
         stv = steered_tcp(ep, False, spec["seq"], 77, payload, target) if target != "none" else None
         fr = netio.tcp_frame(cm, sm, ep["cip"], ep["sip"], ep["cport"], ep["sport"], spec["seq"], 77, 0x18, payload, steer=stv,
-                             bad_csum=(1 + bad % 0xFFFE) if bad else False)
+                             bad_csum=(1 + bad % 0xFFFE) if bad else False, wire=wire)
         steered = stv is not None
     else:
         steered = False
@@ -216,7 +219,7 @@ def evaluate_verdict(spec):
             if d is not None and d <= 0xFFFF:
                 payload = pl[:-2] + struct.pack("!H", d)
                 steered = True
-        fr = netio.udp_frame(cm, sm, ep["cip"], ep["sip"], ep["cport"], ep["sport"], payload, bad_csum=(1 + bad % 0xFFFE) if bad else False)
+        fr = netio.udp_frame(cm, sm, ep["cip"], ep["sip"], ep["cport"], ep["sport"], payload, bad_csum=(1 + bad % 0xFFFE) if bad else False, wire=wire)
     p = Packet(fr, 1.0)
     try:
         got = calculate_checksum_tcp(p) if spec["proto"] == "tcp" else calculate_checksum_udp(p)
@@ -226,15 +229,19 @@ def evaluate_verdict(spec):
     sig = None
     if bool(got) != want:
         sig = f"{spec['proto']}/{'v6' if spec['v6'] else 'v4'}: " + ("correct checksum judged bad" if want else "bad checksum judged correct")
-    field = struct.unpack("!H", (fr[14 + (40 if spec["v6"] else 20):][16:18] if spec["proto"] == "tcp" else fr[14 + (40 if spec["v6"] else 20):][6:8]))[0]
+    w = wire or {}
+    l4 = 14 + (4 if w.get("vlan") else 0) + ((40 + 8 * w.get("ip6ext", 0)) if spec["v6"] else (20 + w.get("ip4opt", 0)))
+    field = struct.unpack("!H", (fr[l4:][16:18] if spec["proto"] == "tcp" else fr[l4:][6:8]))[0]
     labels = [spec["proto"], "v6" if spec["v6"] else "v4", "odd" if spec["len"] % 2 else "even", "target:" + (target if steered else "none"),
               "field:%s" % ("0x0000" if field == 0 else "0xffff" if field == 0xFFFF else "0xfffe" if field == 0xFFFE else "other")]
-    return {"sig": sig, "detail": f"{spec} field {field:#06x} verdict {got}", "nontrivial": steered or bool(bad), "labels": labels}
+    labels += ["wire:" + k for k in sorted(w) if (k != "ip4opt" or not spec["v6"]) and (k != "ip6ext" or spec["v6"])]
+    return {"sig": sig, "detail": f"{spec} field {field:#06x} verdict {got}", "nontrivial": steered or bool(bad) or bool(w), "labels": labels}
 
 
-VERDICT = st.builds(lambda i, v6, proto, ln, seq, target, bad: {"i": i, "v6": v6, "proto": proto, "len": ln, "seq": seq, "target": target, "bad": bad},
+VERDICT = st.builds(lambda i, v6, proto, ln, seq, target, bad, wire: {"i": i, "v6": v6, "proto": proto, "len": ln, "seq": seq, "target": target, "bad": bad,
+                                                                       "wire": wire},
                     st.integers(0, 199), st.booleans(), st.sampled_from(["tcp", "udp"]), st.one_of(st.integers(1, 64), st.integers(1, 1400)),
-                    st.integers(0, 2 ** 32 - 1), st.integers(0, 4), st.one_of(st.just(0), st.just(0), st.integers(1, 0xFFFF)))
+                    st.integers(0, 2 ** 32 - 1), st.integers(0, 4), st.one_of(st.just(0), st.just(0), st.integers(1, 0xFFFF)), strategies.WIRE)
 
 
 def stages(tier):
@@ -250,7 +257,8 @@ def stages(tier):
 RULE = ("component: ones_complement_checksum against the reference fold for word lists built to hit every carry/fold boundary (sum exactly "
         "0x10000, first fold == 0x10000, fold == 0xffff) and random ones; calculate_checksum_tcp/udp on generated packets (IPv4/IPv6, odd/even "
         "lengths) whose sum is steered through the free TCP window/urgent fields or a free UDP payload word to the targets {first fold = "
-        "0x10000, checksum 0x0000 (sent as 0xffff for UDP), 0xfffe, 0x0001} and/or whose field is perturbed; end to end: export(-c, capture) == "
+        "0x10000, checksum 0x0000 (sent as 0xffff for UDP), 0xfffe, 0x0001} and/or whose field is perturbed, plain or with 802.1Q tag / TCP options / IPv4 "
+        "options / IPv6 hop-by-hop and destination-options headers / Ethernet padding (unsteered); end to end: export(-c, capture) == "
         "export(no -c, capture minus corrupted packets) for TLS + QUIC + UDP noise captures.  Non-trivial: sum > 0xffff (sum stages); steered or "
         "corrupted packet (verdict); >= 1 corrupted and >= 1 steered packet and non-empty export (e2e)")
 ASSUMPTIONS = ["a checksum is 'bad' iff the receiver's verification (sum over pseudo header and segment incl. the field folds to 0xffff) fails; "
